@@ -324,10 +324,18 @@ def m_minmax(ex, site, a):
 
 @model('f64::to_bits')
 def m_to_bits(ex, site, a):
-    x = a[0]
-    if not is_sym(x): return struct.unpack('<Q', struct.pack('<d', x))[0]
+    x = deref(ex, a[0])
+    if not is_sym(x):
+        if not isinstance(x, (int, float)): raise Unsupported('to_bits of %r' % (x,))
+        return struct.unpack('<Q', struct.pack('<d', float(x)))[0]
+    cache = ex.side.setdefault('to_bits', {})
+    hit = cache.get(x.get_id())
+    if hit is not None: return hit
     b = ex.fresh('bits', 64)
-    ex.solver.add(z3.fpBVToFP(b, F64) == x)     # NaN payload unconstrained beyond being a NaN
+    ex.solver.add(z3.fpBVToFP(b, F64) == x)
+    # NaN payloads: only the canonical quiet NaN is considered (stated assumption)
+    ex.solver.add(z3.Implies(z3.fpIsNaN(x), b == z3.BitVecVal(0x7ff8000000000000, 64)))
+    cache[x.get_id()] = b
     return b
 
 
